@@ -165,6 +165,13 @@ def pred_dmr(nt, a, b):
       return 'DivmodRounded(%d,%d) = (%d,%d): q*b + r != a' % (a, b, q, r)
     if 2 * abs(r) > abs(b):
       return 'DivmodRounded(%d,%d) = (%d,%d): q is not a nearest integer to a/b' % (a, b, q, r)
+    # exact tie rule of the docstring ("ties are rounded towards +infinity"), both signs of b:
+    # -b <= 2r < b for b > 0, b < 2r <= -b for b < 0, i.e. q = floor(a/b + 1/2)
+    # (theorems C19Shipped.divmodRounded_range_pos/_range_neg/_half_up)
+    if (b > 0 and not -b <= 2 * r < b) or (b < 0 and not b < 2 * r <= -b):
+      return 'DivmodRounded(%d,%d) = (%d,%d): tie not rounded towards +infinity' % (a, b, q, r)
+    if q != (2 * a + b) // (2 * b):
+      return 'DivmodRounded(%d,%d) = (%d,%d): q != floor(a/b + 1/2)' % (a, b, q, r)
     return None
   return pred
 
@@ -310,7 +317,7 @@ def correspondence(rep, rng, tier):
   def add_dmr(x, y, tag=None):
     t = tag or ('b=0' if y == 0 else ('even' if y % 2 == 0 else 'odd') + ('+' if y > 0 else '-'))
     b.add('%s %s %s' % (op, H(x), H(y)), call(fmt_qr, nt.DivmodRounded, x, y), tag=t,
-          pred=pred_dmr(nt, x, y), nontrivial=y != 0)
+          pred=pred_dmr(nt, x, y), nontrivial=y != 0, always=True)
 
   for x in range(-60, 61):
     for y in range(-60, 61):
